@@ -118,6 +118,8 @@ class Result:
     def __init__(self):
         self.cases = {}        # id -> {"blocks": [(bid, ok)], "errs": [(bid, cls, text)], "dyn": {...}, "dynbad": [...], "status": str}
         self.cov = {}          # opcode -> [static, normal, exc]
+        self.push_scope = {}
+        self.push_scope_samples = []
 
     def absorb(self, out):
         cur = None
@@ -140,6 +142,11 @@ class Result:
                 cur.setdefault("dynwit", []).append(line[7:])
             elif cur is not None and line.startswith("status "):
                 cur["status"] = line[7:]
+            elif line.startswith("note ") and " push-scope " in line:
+                k = "ok" if " push-scope ok " in line else "mismatch"
+                self.push_scope[k] = self.push_scope.get(k, 0) + 1
+                if k == "mismatch" and len(self.push_scope_samples) < 5:
+                    self.push_scope_samples.append(line)
             elif line.startswith("endcase"):
                 cur = None
             elif line.startswith("cov "):
@@ -478,6 +485,8 @@ def main():
     run.cov["blocks_verified"] = n_blocks
     run.cov["blocks_accepted"] = n_ok
     run.cov["blocks_rejected"] = n_rej
+    run.cov["push_scope_index_vs_environment_index"] = {"counts": result.push_scope, "mismatch_samples": result.push_scope_samples,
+                                                        "note": "informational until hooks.d/C03-binding-locators.patch is applied and this comparison has been observed on the tree"}
     run.cov["blocks_with_known_env_fp"] = sum(1 for c in result.cases.values() for _, _, l in c["blocks"] if re.search(r"env_fp=\d", l))
     run.cov["instructions"] = nins_total
     run.cov["status_distribution"] = dict(sorted(status_count.items()))
